@@ -350,6 +350,10 @@ def _receive(u: U, mod, client):
             # a close() from another task arrives while we are blocked: it creates _close_wait (and feeds CLOSING)
             if has_closer:
                 fields(ws)["_close_wait"] = _Fut(name="close_wait")
+                # ... and that close() has latched _closed already (R1: monotone flag, set by the other actor)
+                if u.choose(2, "interference.closed_by_other_task"):
+                    fields(ws)["_closed"] = True
+                    waiting_seen["closed_by_other"] = True
         else:
             u.check(f"C13.{'client' if client else 'server'}.receive.waiting_only_around_read",
                     fields(ws)["_waiting"] is False, "R2: _waiting is False whenever receive() is suspended elsewhere")
@@ -377,7 +381,8 @@ def _receive(u: U, mod, client):
     if out.ok and getattr(out.value, "type", None) is w.T.CLOSE:
         u.check(f"C13.{which}.receive.close_sets_peer_code", And(fs["_closing"] is True, fs["_close_code"] == w.peer_code),
                 "a CLOSE message sets closing and records the peer's code")
-        u.check(f"C13.{which}.receive.autoclose", len(calls) == 1, "autoclose answers with our close()")
+        u.check(f"C13.{which}.receive.autoclose", len(calls) == (0 if waiting_seen.get("closed_by_other") else 1),
+                "autoclose answers with our close() - unless another task is already closing the session")
     if not out.ok and isinstance(out.exc, (asyncio.CancelledError, asyncio.TimeoutError)) and client:
         u.check("C13.client.receive.cancel_is_1006", fs["_close_code"] == ABNORMAL, "a cancelled / timed out read reports 1006")
     if out.ok and isinstance(out.value, w.M.WSMessageError if hasattr(w.M, "WSMessageError") else ()):
